@@ -237,3 +237,21 @@ func (sq *Queue) VerifAdvanceQuotaPreemptionClock(d time.Duration) {
 		sq.quotaPreemptionStartTime = sq.quotaPreemptionStartTime.Add(-d)
 	}
 }
+
+// VerifStop sends the Stop event to the queue state machine (Active -> Stopped). No production code path sends it for a
+// queue, the state is only read (sortQueues skips a stopped child).
+func (sq *Queue) VerifStop() error {
+	sq.Lock()
+	defer sq.Unlock()
+	return sq.handleQueueEvent(Stop)
+}
+
+// VerifSetChildSortPolicy overrides the policy a parent queue sorts its children with: the sort type (a parent is always
+// given the fair policy by resetProperties, fifo is only reachable through this hook) and the priority flag
+// (property application.sort.priority).
+func (sq *Queue) VerifSetChildSortPolicy(sortType policies.SortPolicy, considerPriority bool) {
+	sq.Lock()
+	defer sq.Unlock()
+	sq.sortType = sortType
+	sq.prioritySortEnabled = considerPriority
+}
